@@ -30,6 +30,26 @@ TOOLLIKE = [
 ESCAPED = ["\\x[3]", "\\a.b", "\\k;", "\\1st", "\\p(0)", "\\q,r", "\\m=n", "\\z[1][2]"]
 
 
+SUFFIXES = ["_inv", "_pre", "_X", "_0", "_n", "_b", "_new", "_tmp", "_buf", "_in", "_out", "_not", "_1", "_x", "_aux",
+            "_cp", "_d", "_q", "[0]", "[1]", "_3", "[3]", "_c", "_r"]
+
+
+@st.composite
+def related_names_pool(draw, escaped=False):
+    """A small pool in which names are related the way generated names are: a few bases, each also with a few
+    suffixes (sel / sel_inv / sel_pre, d[0] / d_0 ...) and, optionally, in escaped spelling (\\q next to q)."""
+    bases = draw(st.lists(st.sampled_from(["d", "m", "sel", "x", "en", "q", "n1", "a"]), min_size=2, max_size=3, unique=True))
+    sufs = draw(st.lists(st.sampled_from(SUFFIXES), min_size=2, max_size=3, unique=True))
+    pool = []
+    for b in bases:
+        pool.append(b)
+        for s_ in sufs:
+            pool.append(b + s_)
+        if escaped:
+            pool.append("\\" + b)
+    return pool + [n for n in BENIGN[:8] if n not in pool]
+
+
 def names_from(draw, pools, count):
     pool = []
     for p in pools:
